@@ -319,6 +319,11 @@ pub fn promotion_choice_position(rng: &mut Rng) -> Pos {
         if rng.chance(1, 3) {
             p.white_to_move = !p.white_to_move;
         }
+        // sometimes the fifty-move counter stands just below its limit: a promotion is a
+        // pawn move and restarts it
+        if rng.chance(1, 4) {
+            p.halfmove = rng.range(96, 99) as u32;
+        }
         if p.is_valid() && !p.legal_moves().is_empty() {
             return p;
         }
@@ -400,8 +405,23 @@ pub fn many_queens_position(rng: &mut Rng) -> Pos {
         p.white_to_move = white;
         let mut free: Vec<u8> = (0..64).collect();
         rng.shuffle(&mut free);
+        if rng.chance(1, 2) {
+            // the lone king sheltered in a corner behind pawns with a piece beside it: no
+            // immediate mate, so that WHICH of the many moves is best decides the value
+            let (kf, kr): (i8, i8) = (*rng.pick(&[0i8, 7]), if white { 7 } else { 0 });
+            let dr: i8 = if white { -1 } else { 1 };
+            let df: i8 = if kf == 0 { 1 } else { -1 };
+            let ksq = sq(kf, kr);
+            p.sq[ksq as usize] = KING | them;
+            for f in [kf, kf + df, kf + 2 * df] {
+                p.sq[sq(f, kr + dr) as usize] = PAWN | them;
+            }
+            p.sq[sq(kf + df, kr) as usize] = *rng.pick(&[BISHOP, KNIGHT, ROOK]) | them;
+            free.retain(|s| p.sq[*s as usize] == EMPTY);
+        } else {
+            p.sq[free.pop().unwrap() as usize] = KING | them;
+        }
         p.sq[free.pop().unwrap() as usize] = KING | me;
-        p.sq[free.pop().unwrap() as usize] = KING | them;
         for _ in 0..rng.range(5, 8) {
             p.sq[free.pop().unwrap() as usize] = QUEEN | me;
         }
